@@ -913,6 +913,10 @@ add("C18", "constructor normalises qualifiers without is_table", SCHEMA,
     "            normalized_keys = [self._normalize_name(key, is_table=True) for key in keys]",
     "            *qualifiers, table_name = keys\n            normalized_keys = [self._normalize_name(key) for key in qualifiers]\n            normalized_keys.append(self._normalize_name(table_name, is_table=True))", "C18.e")
 
+add("C07", "revert: DuckDB cuts the closing parenthesis of a function rendered with its comments", "sqlglot/generators/duckdb.py",
+    '        this = self.sql(expression.this, comment=False).rstrip(")")\n', '        this = self.sql(expression, "this").rstrip(")")\n', "C07.h")
+add("C07", "benign: DuckDB cuts the closing parenthesis with a slice", "sqlglot/generators/duckdb.py",
+    '        this = self.sql(expression.this, comment=False).rstrip(")")\n', '        this = self.sql(expression.this, comment=False)[:-1]\n', "silent")
 add("C07", "revert: format_time renders the format with its comments", "sqlglot/generator.py",
     '            self.sql(expression.args.get("format"), comment=False),\n', '            self.sql(expression, "format"),\n', "C07.g")
 add("C07", "log base tested on its rendered text", "sqlglot/generator.py",
